@@ -338,6 +338,13 @@ func c12Run(t *testing.T, p c12Plan) (res vfResult) {
 					nmoves++
 				}
 				if k := nextChoice() % nmoves; k < len(movable) {
+					if sc.parkedAt(movable[k]) == "snapshot.begin" {
+						if r.snapshotLock.TryLock() {
+							r.snapshotLock.Unlock()
+						} else {
+							res.label("writer-queued-behind-a-parked-writer")
+						}
+					}
 					sc.release(movable[k])
 				} else {
 					startNext()
